@@ -392,3 +392,24 @@ func (ts *TermStore) AddAxiomOnce(symbol string, f func() *Term) {
 	axiomOnce[symbol] = true
 	ts.AddAxiom(symbol, f())
 }
+
+// ElemIdx: absolute position off+i of element i of a slice. It is wrapped in an uninterpreted function with the
+// defining axiom idx(o,i) = o+i so that quantifier triggers over element reads do not contain arithmetic
+// (solvers normalise sums before matching, which makes patterns such as (select a (+ off j)) miss).
+func (E *Env) ElemIdx(off, i *Term) *Term {
+	ts := E.TS
+	if off.Op == "int" && off.Int.Sign() == 0 {
+		return i
+	}
+	if off.Op == "int" && i.Op == "int" {
+		return ts.Add(off, i)
+	}
+	if _, ok := ts.Funcs["elem.idx"]; !ok {
+		ts.DeclareFunc("elem.idx", []*Sort{SInt, SInt}, SInt)
+		o := ts.BoundVar("o", SInt)
+		k := ts.BoundVar("k", SInt)
+		app := ts.App("elem.idx", SInt, o, k)
+		ts.AddAxiom("elem.idx", ts.Forall([]*Term{o, k}, ts.Eq(app, ts.Add(o, k)), []*Term{app}))
+	}
+	return ts.App("elem.idx", SInt, off, i)
+}
